@@ -510,7 +510,7 @@ class VM:
                 key = self.stack.pop()
                 props.insert(0, (key, kind, value))
             for key, kind, value in props:
-                key_str = to_string(key) if not isinstance(key, str) else key
+                key_str = self._to_string(key) if not isinstance(key, str) else key
                 if kind == "get":
                     obj.define_getter(key_str, value)
                 elif kind == "set":
